@@ -39,20 +39,20 @@ ESSENTIAL = {
     "C03_negotiation": ["expect-success", "resumable-state", "dev-unexpected", "dev-malformed", "dev-close", "websocket"],
     "C04_tls": ["expect-auth-inside-tls", "reconnect", "cert-wronghost", "cert-expired"],
     "C05_inbound": ["segmented", "stanza>4KB", "client-ws-sm-on", "component-tcp-sm-off"],
-    "C06_router": ["several-routes-accept", "no-route-accepts", "unhandled-iq-request", "first-match-not-first-route"],
+    "C06_router": ["several-routes-accept", "no-route-accepts", "unhandled-iq-request", "first-match-not-first-route", "response-to-pending-request"],
     "C07_iqresult": ["parked-at-yield-point", "duplicate-response", "cancellation"],
     "C07_stress": ["racing-cancellation", "abandoned-receiver"],
     "C08_send": ["concurrent", "send-after-disconnect", "client-ws", "client-tls", "component-tcp"],
-    "C09_smcount": ["resumption", "r-after-non-stanza", "earlier-connections-without-sm"],
+    "C09_smcount": ["resumption", "r-after-non-stanza", "earlier-connections-without-sm", "enabled-without-resumption"],
     "C10_smqueue": ["ack-with-unacked-suffix", "stale-ack", "ack-beyond-sent", "server-r"],
     "C11_resume": ["resumed", "non-success-reply"],
     "C12_cut": ["tls", "logger", "sm", "websocket", "cut-in-tag", "cut-in-text", "cut-between-elements"],
     "C13_streammanager": ["server-down", "failing-attempts", "end-streamclose", "end-reset", "end-streamerror", "permanent-error", "stop-while-reconnecting"],
-    "C14_sasl": ["no-common-mechanism", "list-changes-across-starttls", "reconnection-with-other-list", "reply-failure"],
+    "C14_sasl": ["no-common-mechanism", "list-changes-across-starttls", "reconnection-with-other-list", "reply-failure", "auth-write-fault"],
     "C15_jid": ["must-reject", "must-accept", "domain-with-resource", "resource-with-slash-or-at"],
     "C16_component": ["id-or-secret-needs-escaping", "reply-stream-error", "reply-unexpected"],
-    "C17_fifo": ["pop-after-empty-and-refill", "mixed-peek-pop"],
-    "C18_keepalive": ["ping-failure", "session-end", "end-to-end"],
+    "C17_fifo": ["pop-after-empty-and-refill", "mixed-peek-pop", "push-of-held-entry", "caller-changes-own-entry"],
+    "C18_keepalive": ["ping-failure", "session-end", "end-to-end", "over-starttls"],
     "C19_backoff": ["overflowing-attempt", "reset", "jitter", "no-jitter"],
     "C20_address": ["ipv6", "explicit-port", "ws", "wss"],
 }
@@ -73,7 +73,7 @@ TEXT = {
     ),
     "C18": dict(
         technique="property-based fault injection (rapid): generated interval / failing-keepalive index / session-end time on a stub Transport and on a real Client with a wrapped Transport against the scripted peer",
-        level_text="Exploration: generated intervals (2-40 ms), a write failure at the k-th keepalive for k in 1-10, or a session end at a generated time relative to the ticker; run on the bare keepalive loop with a recording stub Transport (verif export) and end to end with a real Client whose Transport is wrapped. Rate bound (sound: a ticker never fires early), presence of at least one keepalive within a generous margin, single-newline content on the wire, exactly one Close and no further keepalive after a failed write, loss reported once, loop termination and silence after the session ended.",
+        level_text="Exploration: generated intervals (2-40 ms), a write failure at the k-th keepalive for k in 1-10, or a session end at a generated time relative to the ticker; run on the bare keepalive loop with a recording stub Transport (verif export) and end to end with a real Client whose Transport is wrapped, over clear-text TCP or after STARTTLS (the keepalive must arrive inside the TLS stream and a stanza sent after the steady phase must still be routed). Rate bound (sound: a ticker never fires early), presence of at least one keepalive within a generous margin, single-newline content on the wire, exactly one Close and no further keepalive after a failed write, loss reported once, loop termination and silence after the session ended.",
         level_note="Schedules are those the Go scheduler produces at generated times; the loop has two select arms, so at most one keepalive can race with the session end (allowed for max(3 intervals, 100 ms)). 60 cases quick, 1200 thorough (each case sleeps for 4-14 intervals).",
     ),
     "C13": dict(
@@ -113,7 +113,7 @@ TEXT = {
     ),
     "C09": dict(
         technique="history-based property test (rapid) of a real Client against a scripted peer that keeps the wire truth",
-        level_text="Exploration: generated inbound histories over stanzas, <r/>, <a/> and other non-stanza elements on 1-4 successive connections of one stream-managed session (drop + Resume in between); the peer counts the stanzas it sent and compares the h of every <a/> answer and of every <resume/> with that count, and previd with the id it gave.",
+        level_text="Exploration: generated inbound histories over stanzas, <r/>, <a/> and other non-stanza elements on 1-4 successive connections of one stream-managed session (drop + Resume in between), the server's <enabled/> allowing resumption or not; the peer counts the stanzas it sent and compares the h of every <a/> answer and of every <resume/> with that count, and previd with the id it gave.",
         level_note="2000 histories quick, 24k thorough, up to 60 elements per connection. The <a/> elements sent by the peer carry a very large h so that the (separate, C10) retransmission logic stays quiet.",
     ),
     "C16": dict(
@@ -123,7 +123,7 @@ TEXT = {
     ),
     "C14": dict(
         technique="property-based test (rapid) of a real Client against a scripted XMPP peer; oracle on the peer's transcript",
-        level_text="Exploration: generated user names (everything NewJid accepts), secrets (arbitrary bytes), credential kind, server mechanism lists and server replies; a real Client connects over loopback TCP to a scripted peer which records the <auth/> element; the decoded payload must equal NUL local NUL secret byte for byte, the mechanism must be advertised and supported, no common mechanism must mean nothing is sent after the stream header and a permanent error, <failure/> must be a permanent error, and anything but <success/> must not authenticate.",
+        level_text="Exploration: generated user names (everything NewJid accepts), secrets (arbitrary bytes), credential kind, server mechanism lists and server replies; a real Client connects over loopback TCP to a scripted peer which records the <auth/> element; the decoded payload must equal NUL local NUL secret byte for byte, the mechanism must be advertised and supported, no common mechanism must mean nothing is sent after the stream header and a permanent error, <failure/> must be a permanent error, and anything but <success/> must not authenticate - also when the write of <auth/> itself is faulted in a wrapped Transport (no bytes and no error, an error, half of the bytes).",
         level_note="3000 connections quick, 24k thorough (bounded by the ephemeral-port budget of the machine). Only TCP (the WebSocket transport shares authSASL). Assumes the peer's XML reader reports what was on the wire.",
     ),
     "C02": dict(
@@ -138,7 +138,7 @@ TEXT = {
     ),
     "C06": dict(
         technique="property-based differential test (rapid): generated route tables and packets against a reference router",
-        level_text="Exploration: generated route tables (0-6 routes, every conjunction of name/type/namespace matchers) and packets of every kind are dispatched through the real Router.route (verif export) and compared with a reference router written from the package comment: first accepting route only, exactly once; one feature-not-implemented error for unhandled IQ get/set and no reply otherwise. 50k cases quick, 3M thorough; matchers are biased so that >40% of cases have several accepting routes or none.",
+        level_text="Exploration: generated route tables (0-6 routes, every conjunction of name/type/namespace matchers) and packets of every kind are dispatched through the real Router.route (verif export) and compared with a reference router written from the package comment: first accepting route only, exactly once; one feature-not-implemented error for unhandled IQ get/set and no reply otherwise; with IQ requests pending on the router, a response to one of them reaches only its channel and every other packet is routed as usual. 50k cases quick, 3M thorough; matchers are biased so that >40% of cases have several accepting routes or none.",
         level_note="Bounded table size (6) and a fixed alphabet of names/types/namespaces; IQs with an unknown (unregistered) payload are never matched against a namespace matcher naming that namespace, because that behaviour is not documented. Packets come from the library's own parser.",
     ),
     "C15": dict(
@@ -158,7 +158,7 @@ TEXT = {
     ),
     "C17": dict(
         technique="stateful model-based property test (rapid): generated operation sequences against a reference slice",
-        level_text="Exploration: every generated operation sequence (20k quick / 2M thorough) is applied to stanza.UnAckQueue and to a reference FIFO and compared after every step (return values, contents, peek purity, strictly increasing ids). The property quantifies over all histories; generated search with shrinking is the family's direct tool and the state space (queue contents x k classes) is small enough that short sequences cover every branch of the six methods.",
+        level_text="Exploration: every generated operation sequence (20k quick / 2M thorough) (including pushes of entries the caller already holds and the caller overwriting entries it owns) is applied to stanza.UnAckQueue and to a reference FIFO and compared after every step (return values, contents, peek purity, strictly increasing ids). The property quantifies over all histories; generated search with shrinking is the family's direct tool and the state space (queue contents x k classes) is small enough that short sequences cover every branch of the six methods.",
         level_note="Not a proof: sequences are bounded to 40 operations; assumes the reference slice model written from the statement is right.",
     ),
 }
